@@ -161,7 +161,7 @@ def gen(ctx, sub, hostile=False):
             add([(k, sw_table(k), [b"prog"] + a, None)])
             add([(None, sw_table(k), [b"prog"] + a, None)])
 
-    nrand = ctx.n(9000, 120000)
+    nrand = ctx.n(14000, 150000)
     for _ in range(nrand):
         kind = r.random()
         if kind < 0.25:
@@ -250,6 +250,22 @@ def gen_irregular(ctx, sub):
     return cases
 
 
+def _sanitizer(ctx, sub, st, cases, impl):
+    """like vlib.sanitizer_reports, but names the case each crashing shard stopped at (a shard
+    prints one complete line per finished case, so the first missing line is the crashing case)"""
+    n = len(cases)
+    if n == 0:
+        return
+    shards = max(1, min(vlib.NCPU, n))
+    per = (n + shards - 1) // shards
+    for k, (rc, err) in enumerate(st):
+        if rc == 0 and "ERROR: AddressSanitizer" not in err and "runtime error:" not in err and "LeakSanitizer" not in err:
+            continue
+        lo, hi = k * per, min(n, (k + 1) * per)
+        bad = [i for i in range(lo, hi) if impl[i].startswith("<no-output")]
+        vlib.sanitizer_reports(ctx, sub, [(rc, err)], cases_desc=cases[bad[0]] if bad else "")
+
+
 def _run(ctx, sub, hostile):
     exe, err = vlib.build_c("drv_getopt_asan", "drv_getopt.c", ["util/getopt.c"], asan=True)
     if not exe:
@@ -262,7 +278,7 @@ def _run(ctx, sub, hostile):
     env = {"ASAN_OPTIONS": "detect_leaks=1:abort_on_error=0:handle_abort=0"}
     cc, cm = gen(ctx, sub, hostile)
     impl, st = vlib.run_sharded(exe, cc, env=env)
-    vlib.sanitizer_reports(ctx, sub, st)
+    _sanitizer(ctx, sub, st, cc, impl)
     model, _ = vlib.run_sharded(mexe, cm)
     spec, _ = vlib.run_sharded(mexe, ["spec " + c for c in cm])
     vlib.tri_compare(ctx, sub, cc, impl, model, spec)
@@ -278,7 +294,7 @@ def _run(ctx, sub, hostile):
     icf = gen_irregular(ctx, sub)
     ic = [c for c, _ in icf]
     iimpl, st = vlib.run_sharded(exe, ic, env=env)
-    vlib.sanitizer_reports(ctx, sub + ".irregular", st)
+    _sanitizer(ctx, sub + ".irregular", st, ic, iimpl)
     imodel, _ = vlib.run_sharded(mexe, ic)
     icoded, _ = vlib.run_sharded(mexe, ["coded " + c for c in ic])
     vlib.compare(ctx, sub + ".irregular", ic, iimpl, imodel,
